@@ -465,10 +465,11 @@ Qed.
 
 (* ---------- POST elements keeps the views ---------- *)
 Theorem post_views bs G s ord es :
-  ViewsI bs G s -> guard bs G (body s) (OPost ord es) ->
+  ViewsI bs G s -> NoDup ord -> (forall e, In e es -> In (blockOf bs (e_pos e)) ord) -> elems_ok es = true ->
   exists s', store_elements fixed bs ord es s = Ok s' /\ body s' = body s /\ ViewsI bs (g_post es G) s'.
 Proof.
-  intros V [ND [Hord [Ues Hnd]]]. unfold store_elements. cbn [fx_erase fx_kind fixed].
+  intros V ND Hord Hok. destruct (elems_ok_true es Hok) as [Ues Hnd].
+  unfold store_elements. cbn [fx_erase fx_kind fx_valid fixed]. rewrite Hok. cbn [negb andb].
   destruct (tag_delta_fold bs (blk s) es ord [] (fun b => proj1 (vi_block _ _ _ V b)) Hnd) as [m [Em _]].
   match goal with |- context [res_bind ?X _] => assert (Em' : X = Ok m) by exact Em; rewrite Em' end.
   cbn [res_bind].
